@@ -101,6 +101,7 @@ type Request struct {
 	PktIDBase  uint32               `json:"pktid_base,omitempty"`
 	Noise      []NoiseItem          `json:"noise,omitempty"`
 	Flood      *FloodSpec           `json:"flood,omitempty"`
+	RealTime   bool                 `json:"real_time,omitempty"` // run on the real clock (no bubble)
 	Providers  map[string][]ProviderStep `json:"providers,omitempty"` // when set, the real PublicIPFetcher runs over a scripted transport
 	ProviderDefault []ProviderStep  `json:"provider_default,omitempty"`
 }
@@ -226,7 +227,7 @@ func RunRequest(t *testing.T, rq *Request) *ReqOutcome {
 				out.Deadlock = fmt.Sprint(r)
 			}
 		}()
-		synctest.Test(t, func(t *testing.T) {
+		body := func(t *testing.T) {
 			// no janitor: it compares real time with fake expiries
 			cache.Cache = gocache.New(5*time.Minute, 0)
 			w := NewWire(world)
@@ -284,9 +285,16 @@ func RunRequest(t *testing.T, rq *Request) *ReqOutcome {
 			w.Returned = true
 			w.mu.Unlock()
 			cancel()
-			synctest.Wait()
+			if !rq.RealTime {
+				synctest.Wait()
+			}
 			out.GorAfter = runtime.NumGoroutine()
-		})
+		}
+		if rq.RealTime {
+			body(t)
+		} else {
+			synctest.Test(t, body)
+		}
 	}()
 	out.FetchCalls = fetcher.calls
 	if world.Sack != nil {
